@@ -42,7 +42,7 @@ body = '''## 11. Sensitivity: which checks catch which seeded changes
 Method. Fresh sub-agents were given **only** the text of one property and a scratch git worktree
 of /repo (nothing from /verif) and asked for changes that break the property while compiling and
 passing the existing suite, each with a demonstration that fails with the change and passes
-without it, preferring changes that need something specific to manifest. Eight rounds of six
+without it, preferring changes that need something specific to manifest. Nine rounds of six
 agents (seven in the fifth, where C18 had one agent for the archive side and one for the asset
 parsers); from the second round on they were told which ideas had been used before, and that the
 `verif_sim` seam of /repo may be used by a demonstration (that is how short and interrupted I/O,
